@@ -197,6 +197,11 @@ impl World {
     }
 
     pub fn note_delivery(&mut self, dst: usize, origin: usize, c: &Changeset, supplier: usize) {
+        self.note_delivery_from(dst, origin, c, supplier, None)
+    }
+
+    /// `pre`: the model of (dst, origin) before the batch this message belongs to (see OriginModel::on_deliver_from)
+    pub fn note_delivery_from(&mut self, dst: usize, origin: usize, c: &Changeset, supplier: usize, pre: Option<&OriginModel>) {
         if let Changeset::Full { version, seqs, last_seq, .. } = c {
             if !(seqs.start().0 == 0 && seqs.end() == last_seq) {
                 self.stats.partial_deliveries += 1;
@@ -226,7 +231,7 @@ impl World {
             _ => false,
         };
         let m = self.models[dst].entry(origin).or_default();
-        if let Some(v) = m.on_deliver(c) {
+        if let Some(v) = m.on_deliver_from(c, pre) {
             self.stats.became_covered += 1;
             self.expected_triggers.insert((dst, origin, v));
         }
@@ -256,6 +261,10 @@ impl World {
         }
         let want = sh.tables().map_err(infra)?;
         let got = self.nodes[node].dump_tables().await.map_err(infra)?;
+        if got != want && std::env::var_os("KVERIF_TRACE").is_some() {
+            let (nc, sc) = (self.nodes[node].dump_cells().await.map_err(infra)?, sh.cells().map_err(infra)?);
+            eprintln!("   node-only cells {:?}\n   shadow-only cells {:?}", nc.iter().filter(|x| !sc.contains(x)).collect::<Vec<_>>(), sc.iter().filter(|x| !nc.contains(x)).collect::<Vec<_>>());
+        }
         ensure!(got == want, "visible-exactly-when-complete", "{when}: node {node} tables differ from what the completely received versions produce:\n node   {}\n expect {}", sim::tables_repr(&got), sim::tables_repr(&want));
         Ok(())
     }
@@ -377,7 +386,8 @@ impl World {
                     }
                     _ => {}
                 }
-                self.note_delivery(dst, *origin, &c.changeset, *supplier);
+                let empty_model = OriginModel::default();
+                self.note_delivery_from(dst, *origin, &c.changeset, *supplier, Some(pre.unwrap_or(&empty_model)));
             }
             let src = if msgs.iter().any(|m| m.4) { ChangeSource::Sync } else { ChangeSource::Broadcast };
             self.nodes[dst].deliver(msgs.into_iter().map(|m| m.3).collect(), src).await.map_err(|e| Fail::new("ingest-batch-succeeds", e.0))?;
